@@ -1,8 +1,9 @@
 """C15 - kind-aware queries of a typed tree equal filtering the child list by kind.
 
 A parent (the tree itself, or a nested node) gets m children whose kinds are
-symbolic one-character strings (any characters: the code only compares kinds
-for equality, so paths partition the inputs by equality pattern).  On every
+symbolic selectors into a pool of three kind names (the code only compares
+kinds for equality; symbolic z3 strings were tried and are too slow once the
+stored and the queried strings must be distinct objects).  On every
 path every child position, every kind present plus an absent one, and both
 values of any_kind/add_self are checked against list comprehensions over the
 child list.
@@ -17,14 +18,14 @@ FUNCTIONS = [
 ]
 STUBS = ["S-dict", "S-hash", "S-fmt"]
 ASSUMPTIONS = [
-    "kinds are arbitrary non-empty one-character strings (empty kind outside the claim); labels are distinct concrete strings",
+    "kinds are symbolic selectors into a pool of three kind names (every same/different pattern; the code only compares kinds for equality); stored and queried kind strings are equal but distinct objects; labels are distinct concrete strings",
     "the queried kinds are every kind present among the children plus one absent kind",
 ]
 TIMEOUTS = {"quick": (300, 30), "thorough": (1200, 60)}
 
 
 def BOUNDS(tier):
-    return {"max_children": 4 if tier == "quick" else 6, "parents": ["tree (top level)", "nested node", "nested node with a grandchild"], "kinds": "symbolic str, len 1"}
+    return {"max_children": 4 if tier == "quick" else 6, "parents": ["tree (top level)", "nested node", "nested node with a grandchild"], "kinds": "symbolic selector over 3 names"}
 
 
 def shards(tier):
@@ -37,7 +38,7 @@ def shards(tier):
 
 
 def params(desc):
-    return [("k%d" % i, "str", 1, 1) for i in range(desc["m"])]
+    return [("k%d" % i, "sel", 0, 2) for i in range(desc["m"])]
 
 
 def _same(a, b):
@@ -53,7 +54,9 @@ def body(ctx, desc, x):
     from nutree.typed_tree import ANY_KIND, TypedTree
 
     m = desc["m"]
-    kinds = [x["k%d" % i] for i in range(m)]
+    # two-character kinds built at run time: the query strings below are equal
+    # to the stored kinds but distinct objects (an `is` comparison must not pass)
+    kinds = ["kind" + str(x["k%d" % i]) for i in range(m)]
     tree = TypedTree("T")
     if desc["where"] == "top":
         parent = tree
@@ -67,7 +70,7 @@ def body(ctx, desc, x):
         ch[0].add("g", kind=kinds[0])  # a grandchild must not disturb the queries
     ctx.mark()
     ABSENT = "zz"
-    qs = list(kinds) + [ABSENT]
+    qs = ["kind" + str(x["k%d" % i]) for i in range(m)] + [ABSENT]
 
     # parent-side queries
     for q in qs:
